@@ -20,6 +20,11 @@ os.environ.setdefault("NUMBA_CACHE_DIR", os.path.join(VERIF, ".cache", "numba"))
 if REPO not in sys.path:
     sys.path.insert(0, REPO)
 
+CPLEX_MODE = os.environ.get("VERIF_CPLEX", "absent")
+if CPLEX_MODE == "standin":
+    import pulp  # noqa: F401,E402  (must be imported before the stand-in is visible, see cplex_standin/cplex/__init__.py)
+    sys.path.insert(0, os.path.join(VERIF, "harness", "cplex_standin"))
+
 
 # ----------------------------------------------------------------------------------------------
 # driver
